@@ -20,7 +20,7 @@ EXPLANATION = (
     'grammar agreement: emission order of each LexWriter._write_* equals the consumption order of the parser\'s _read_*; '
     'the argument string uses the Polish ASCII writer and ":" on both sides. (R4) both dispatch maps cover every lexical '
     'type. The standard *writer* is deliberately not required to invert the standard parser (the property does not claim '
-    'it). Round trips of arbitrary sentences are declined.')
+    'it). Round trips of arbitrary sentences are declined. (R3, folded) the ArgumentMeta attributes lang.init() installs are evaluated from init\'s own statements; Argument.argstr and Argument.from_argstr are folded over them with a parser mock whose predicate store lives as long as the instance: four argument strings in a row, re-using a predicate symbol with another arity, must each come back conclusion first and parsed independently. (R6) the Polish string of every sentence of a structure corpus (all operator shapes, nested quantifiers, one variable re-used in disjoint scopes, subscripts) is read back by the MRO-bound PolishParser/ParseContext as the structure written.')
 TRUSTED = ['CPython ast', 'sa.minieval', 'html.unescape']
 ASSUMPTIONS = ['tables are loaded unchanged by ParseTable.load / StringTable.load (the loaders are checked for the keys they add)']
 
@@ -127,34 +127,101 @@ def run(ctx, rep):
         rep.consult(where)
         if not ok:
             rep.finding(R3, f'C12.R3/roundtrip/{what}', where.split(' ')[0], what, f'token-level write/parse round trip fails: {detail}')
-    checks = [
-        (LEX, 'Quantified.__init__', ['self.items = ((q := Quantifier(q)), (v := Variable(v)), (s := Sentence(s)))', 'self.quantifier, self.variable, self.sentence = self.items'], 'items = (quantifier, variable, sentence)'),
-        (COL, 'Argument.argstr', ["':'.join(map(__class__._argstr_lw, self))"], 'conclusion first, ":"-joined'),
-        (COL, 'Argument.from_argstr', ["conc, *prems = argstr.split(':')", '__class__._argstr_pclass(auto_preds=True)', 'parser.argument(conc, prems, title=title)'], 'split on ":" conclusion first'),
-    ]
-    for mod, qn, frags, what in checks:
-        fn = m.func(mod, qn)
-        txt = astq.u(fn)
-        idx = [txt.find(f) for f in frags]
-        ok = all(i >= 0 for i in idx) and idx == sorted(idx)
-        rep.instance(R3, ok=ok, sample=dict(function=qn, order=what), nontrivial=qn)
-        rep.consult(f'{m.loc(mod, fn)} {qn}')
-        if not ok:
-            rep.finding(R3, f'C12.R3/{qn}', m.loc(mod, fn), qn, f'no longer reads/writes "{what}" in that order (writer and parser would disagree)')
-    init = m.func(LANG, 'init') if 'init' in m.functions(LANG) else None
-    src = m.sources[LANG]
-    ok = "argstrlw = LexWriter(\n        notation=Notation.polish,\n        format='text',\n        dialect='ascii')" in src and \
-        'ArgumentMeta._argstr_pclass = argstrlw.notation.Parser' in src
-    rep.instance(R3, ok=ok, nontrivial='argstr-writer')
-    if not ok:
-        rep.finding(R3, 'C12.R3/argstr-writer', m.relfile(LANG), 'lang.__init__ init()', 'the canonical argument string is no longer written with the Polish text/ascii writer and parsed with that notation\'s parser')
-    # parser skips written whitespace
-    adv = m.func(PAR, 'ParseContext.advance')
-    ok = 'self.chomp()' in astq.u(adv)
-    rep.instance(R3, ok=ok, nontrivial='advance-chomps')
-    if not ok:
-        rep.finding(R3, 'C12.R3/ParseContext.advance', m.loc(PAR, adv), 'ParseContext.advance', 'no longer skips whitespace after a symbol')
+    # argument strings folded: argstr() / from_argstr() with the class attributes lang.init() installs (evaluated from init's own statements)
+    from ..minieval import Interp as _I, Obj as _O, Raised as _Rd, Raises as _Rs
 
+    class ParseErrorM(Exception):
+        pass
+
+    class ParserM:
+        "a parser whose predicate store lives as long as the instance does (as the real one): symbol -> arity on first use"
+        made = []
+
+        def __init__(self, *a, **kw):
+            self.kw, self.store = kw, {}
+            ParserM.made.append(self)
+
+        def argument(self, conclusion, premises=None, *, title=None):
+            for s_ in [conclusion] + list(premises or ()):
+                sym, arity = s_[0], len(s_) - 1
+                if self.store.setdefault(sym, arity) != arity:
+                    raise ParseErrorM(f'{sym} used with arity {arity} after {self.store[sym]}')
+            return ('ARGUMENT', conclusion, tuple(premises or ()), title)
+
+        def __call__(self, s_):
+            return s_
+    initfn = next((st for st in m.trees[LANG].body if isinstance(st, ast.FunctionDef) and st.name == 'init'), None)
+    astq.need(initfn is not None, 'lang.init() not found')
+    ArgMeta = _O('ArgumentMeta')
+    writer_args = {}
+
+    def LexWriterM(*a, **kw):
+        writer_args.update(kw)
+        w_ = _O('argstr-writer', notation=_O('notation', Parser=ParserM))
+        w_.__class__ = type('LW', (_O,), {'__call__': lambda s_, item: str(item)})
+        return w_
+    iti = _I(dict(LexWriter=LexWriterM, ArgumentMeta=ArgMeta, Notation=_O('Notation', polish='polish', standard='standard'),
+                  Predicates=_O('Predicates', EMPTY='EMPTY-STORE')), where='lang/__init__.py init()')
+    env = {}
+    for st in initfn.body:
+        txt = astq.u(st)
+        if isinstance(st, ast.Assign) and ('argstr' in txt or 'ArgumentMeta' in txt):
+            try:
+                iti.run([st], env)
+            except (_Rd, AnalysisError, TypeError, AttributeError) as e:
+                raise AnalysisError(f'lang.init(): cannot evaluate `{txt[:70]}`: {e}')
+    ok = writer_args.get('notation') == 'polish' and writer_args.get('format') == 'text' and writer_args.get('dialect') == 'ascii' and \
+        hasattr(ArgMeta, '_argstr_lw')
+    rep.instance(R3, ok=ok, nontrivial='argstr-writer')
+    rep.consult(m.loc(LANG, initfn) + ' lang.init')
+    if not ok:
+        rep.finding(R3, 'C12.R3/argstr-writer', m.relfile(LANG), 'lang.__init__ init()',
+                    f'the canonical argument string is not written with the Polish text/ascii writer (LexWriter called with {writer_args})')
+    f_as = m.func(COL, 'Argument.argstr')
+    f_fa = m.func(COL, 'Argument.from_argstr')
+    rep.consult(m.loc(COL, f_as) + ' Argument.argstr', m.loc(COL, f_fa) + ' Argument.from_argstr')
+    ita = _I(dict(__class__=ArgMeta, ParseError=ParseErrorM), where='lang/collect.py Argument.argstr / from_argstr')
+
+    class ArgSeq(tuple):
+        pass
+    arg = ArgSeq(('Fm', 'KFmGmn', 'a'))
+    r = ita.safe(f_as, [arg])
+    ok = r == 'Fm:KFmGmn:a'
+    rep.instance(R3, ok=ok, nontrivial='argstr')
+    if not ok:
+        rep.finding(R3, 'C12.R3/Argument.argstr', m.loc(COL, f_as), 'Argument.argstr', f'renders {r!r} for (conclusion Fm; premises KFmGmn, a), expected the ":"-joined writer output, conclusion first')
+    # round trip + history independence: the same symbol with another arity in the next argument must still parse
+    outs = []
+    for text, title in (('Fm:KFmGmn:a', 'T1'), ('Fmn:Hm', None), ('Gm', None), ('Fm', 'T2')):
+        before = len(ParserM.made)
+        try:
+            outs.append(ita.call(f_fa, [text], dict(title=title)))
+        except ParseErrorM as e:
+            outs.append(_Rs(f'ParseError: {e}'))
+        except (_Rd, TypeError, AttributeError, KeyError, ValueError) as e:
+            outs.append(_Rs(f'{type(e).__name__}: {getattr(e, "text", e)}'))
+    want = [('ARGUMENT', 'Fm', ('KFmGmn', 'a'), 'T1'), ('ARGUMENT', 'Fmn', ('Hm',), None), ('ARGUMENT', 'Gm', (), None), ('ARGUMENT', 'Fm', (), 'T2')]
+    ok = outs == want
+    rep.instance(R3, ok=ok, nontrivial='from_argstr')
+    if not ok:
+        rep.finding(R3, 'C12.R3/Argument.from_argstr', m.loc(COL, f_fa), 'Argument.from_argstr',
+                    f'four argument strings in a row (a predicate symbol used with different arities in different arguments) give {outs!r}; expected {want!r}: '
+                    f'each string is split on ":" conclusion first and parsed independently of earlier ones')
+
+    from .. import parsefold
+    R6 = rep.rule('C12.R6', 'round trip through the folded parser: the Polish string of every sentence of a structure corpus (all operator shapes, nested '
+                            'quantifiers, the same variable re-used in disjoint scopes, subscripts) is read back by PolishParser / ParseContext '
+                            '(MRO-bound, real parse table) as the structure written')
+    res, cons = parsefold.fold_roundtrip(m, ctx.lgs.lex, deep=rep.tier == 'thorough')
+    rep.consult(*cons)
+    nbad = 0
+    for ok, text, detail in res:
+        rep.instance(R6, ok=ok, nontrivial=text)
+        if not ok:
+            nbad += 1
+            if nbad <= 3:
+                rep.finding(R6, f'C12.R6/{text}', 'pytableaux/lang/parsing.py', 'PolishParser', detail)
+    rep.floor('C12.R6', 'well-formed Polish strings', len(res), 150)
     R5 = rep.rule('C12.R5', 'local injectivity of the standard writer (folded): distinct (operator, operands) shapes render to distinct strings under every writer option set')
     for ok, what, detail, where in writer_injectivity(m):
         rep.instance(R5, ok=ok, sample=dict(case=what, detail=detail), nontrivial=('inj', what))
